@@ -4,8 +4,10 @@ E1_RESOURCE = {"name": "e1-resource", "engine": "e1", "harness": ["resource.cc"]
 
 E1_POOL = {"name": "e1-pool", "engine": "e1", "harness": ["threadpool.cc"], "repo_src": ["src/threading/ThreadPool.cpp", "src/threading/Thread.cpp", "src/threading/Runnable.cpp"]}
 
-E1_RACE = {"name": "e1-race", "engine": "e1", "harness": ["resource.cc", "threadpool.cc"],
-           "repo_src": ["src/threading/rwp/Resource.cpp", "src/threading/ThreadPool.cpp", "src/threading/Thread.cpp", "src/threading/Runnable.cpp"]}
+_ROUTER_SRC = ["src/observer/routing/*.cpp", "src/threading/rwp/Resource.cpp"]
+E1_ROUTER = {"name": "e1-router", "engine": "e1", "harness": ["router.cc"], "repo_src": _ROUTER_SRC}
+E1_RACE = {"name": "e1-race", "engine": "e1", "harness": ["resource.cc", "threadpool.cc", "router.cc"],
+           "repo_src": _ROUTER_SRC + ["src/threading/ThreadPool.cpp", "src/threading/Thread.cpp", "src/threading/Runnable.cpp"]}
 
 E1_THREAD = {"name": "e1-thread", "engine": "e1", "harness": ["thread.cc"], "repo_src": ["src/threading/Thread.cpp", "src/threading/Runnable.cpp"]}
 
@@ -19,6 +21,7 @@ CHECKS = {
     "C08": {"level": MC, "runs": [{"binary": E1_POOL, "flavour": "plain"}]},
     "C15": {"level": MC, "runs": [{"binary": E1_RACE, "flavour": "tsan"}]},
     "C20": {"level": MC, "runs": [{"binary": E1_THREAD, "flavour": "plain"}, {"binary": E1_THREAD, "flavour": "asan"}]},
+    "C11": {"level": MC, "runs": [{"binary": E1_ROUTER, "flavour": "plain"}, {"binary": E1_ROUTER, "flavour": "asan", "args": ["--max-bound", "1"]}]},
     "C12": {"level": MC, "runs": [{"binary": E1_RESOURCE, "flavour": "plain"}]},
 }
 
